@@ -57,7 +57,9 @@ def verif_hash():
 
 class Ctx:
     def __init__(self, pid, tier, seed, use_cache=True):
-        self.id, self.tier, self.seed, self.use_cache = pid, tier, seed, use_cache
+        self.id, self.tier, self.use_cache = pid, tier, use_cache
+        self.seed_given = seed
+        self.seed = abs(int(seed)) % (1 << 40)          # the drivers take unsigned 64-bit seeds (seed*1000+shard)
         self.t0 = time.time()
         self.stages = []
         self.built = set()
@@ -345,6 +347,7 @@ def trace_stage(ctx, name, cmds, module, nontrivial=None, timeout=None, keep=Fal
     with ThreadPoolExecutor(max_workers=NCPU) as ex:
         results = list(ex.map(lambda f: tlc_trace_one(module, f, timeout) if os.path.getsize(f) > 0 else [], files))
     events = 0
+    outcomes = 0
     distinct = set()
     mismatches = []
     samples = []
@@ -360,6 +363,7 @@ def trace_stage(ctx, name, cmds, module, nontrivial=None, timeout=None, keep=Fal
                 ev = {"op": "unparsable"}
             op = ev.get("op", "?")
             ops[op] = ops.get(op, 0) + 1
+            outcomes += _n_outcomes(ev)
             if nontrivial is None or nontrivial(ev):
                 distinct.add(hsh)
             if len(samples) < 4 and i % 997 == 3:
@@ -372,7 +376,7 @@ def trace_stage(ctx, name, cmds, module, nontrivial=None, timeout=None, keep=Fal
     demo = binding_demo(module, files[0]) if files and os.path.getsize(files[0]) > 0 else None
     if demo and demo["missed"]:
         print(f"WARNING: binding demonstration for stage {name}: falsified events accepted by the specification: {demo['missed']}", file=sys.stderr)
-    res = dict(kind="trace", name=name, module=module, events=events, distinct_nontrivial=len(distinct), ops=ops, binding_demo=demo,
+    res = dict(kind="trace", name=name, module=module, events=events, outcomes=outcomes, distinct_nontrivial=len(distinct), ops=ops, binding_demo=demo,
                mismatches=mismatches, samples=samples, wall_s=round(time.time() - t0, 2),
                cmd=" ".join([os.path.basename(cmds[0][0][0])] + cmds[0][0][1:]) + f"  (x{len(cmds)} shards) | TLC {module}", cached=False)
     if not keep:
@@ -494,6 +498,15 @@ def _prune_cache(maxn=60):
     ds = sorted(glob.glob(os.path.join(c, "*")), key=os.path.getmtime)
     for d in ds[:-maxn]:
         shutil.rmtree(d, ignore_errors=True)
+
+
+def _n_outcomes(ev):
+    """number of individual implementation outcomes an event carries (batch events carry many)"""
+    for k in ("outs", "cases", "msgs"):
+        v = ev.get(k)
+        if isinstance(v, list):
+            return max(1, len(v))
+    return 1
 
 
 def _shorten(ev, lim=600):
@@ -624,6 +637,7 @@ def write_evidence(ctx, spec, nviol, known):
         states=sum(s["states"] for s in mc),
         transitions=sum(s["transitions"] for s in mc),
         traces_validated_against_impl=sum(s["events"] for s in tr),
+        implementation_outcomes_validated=sum(s.get("outcomes", s["events"]) for s in tr),
         evaluations=sum(s["events"] for s in tr) + sum(s["transitions"] for s in mc),
         distinct_nontrivial=sum(s["distinct_nontrivial"] for s in tr),
         rule=spec.get("rule", ""),
@@ -636,7 +650,7 @@ def write_evidence(ctx, spec, nviol, known):
         checker_cmd="; ".join(s["cmd"] for s in ctx.stages)[:2000],
         repo_tree_sha256=repo_hash()[:16],
     )
-    ev = dict(property_id=ctx.id, tier=ctx.tier, seed=ctx.seed, level="model_checking", coverage=cov,
+    ev = dict(property_id=ctx.id, tier=ctx.tier, seed=int(ctx.seed_given), level="model_checking", coverage=cov,
               assumptions=spec.get("assumptions", []), wall_s=round(time.time() - ctx.t0, 2), violations=nviol)
     os.makedirs(os.path.join(VERIF, "evidence"), exist_ok=True)
     json.dump(ev, open(os.path.join(VERIF, "evidence", ctx.id + ".json"), "w"), indent=1)
